@@ -387,7 +387,7 @@ inductive OpenResult where
   | errorSeek (freesCaller : Bool)
   /-- the reader wrote outside an object (F19): anything may happen -/
   | undefined
-deriving Repr
+deriving Repr, DecidableEq
 
 /-- F11 repair: a blob without a time field gets the time of blob 0 -/
 def fixTimes (v : Variant) (es : List Entry) : List Entry :=
